@@ -7,7 +7,7 @@ From Coq Require Import List NArith Bool.
 Import ListNotations.
 Require Import ZV.Skel ZV.gen.Skeleton ZV.tie.RefTie.
 Open Scope N_scope.
-Ltac tvm := timeout 60 (vm_compute; repeat split; reflexivity).
+Ltac tvm := timeout 240 (vm_compute; repeat split; reflexivity).
 
 Definition is_engine (f : N) : bool := (13 <=? f) && (f <=? 19).
 Definition err_return (s : sk) : bool :=
